@@ -363,7 +363,12 @@ class C03(Check):
         l3 = ph["l3"]
         tp_present = l3 is not None and l3[0] == "ip" and (l3[5] or l3[6] is not None)
         ecn = (l3[4] & 3) if (l3 is not None and l3[0] == "ip") else 0
-        base = ["rawprereq", "tos8", "hostbits"]
+        # a deviation is only offered as explanation when the input is syntactically in its input class
+        base = []
+        if (wild(r, DL_TYPE) and r[DL_TYPE] in (0x0800, 0x0806)) or (wild(r, PROTO) and r[DL_TYPE] == 0x0800 and r[PROTO] in (1, 6, 17)):
+            base.append("rawprereq")
+        if (r[TOS] & 3) or ecn: base.append("tos8")
+        if any(k < 32 and r[f] & ((1 << k) - 1) for f, k in ((NW_SRC, ign_src(r)), (NW_DST, ign_dst(r)))): base.append("hostbits")
         for n in (1, 2, 3):
             for combo in _combos(base, n):
                 v = set(combo)
@@ -418,7 +423,9 @@ class C03(Check):
                 best = max(S, key=lambda i: ranks[i])
                 if ranks[best] > ranks[got]:
                     if obs["codematch"][fi][best]:
-                        why = "exact-outranked" if spec_exact(recs[best]) else "priority-order"
+                        rb = recs[best]
+                        why = ("priority-order" if not spec_exact(rb) else
+                               "exact-outranked" if (rb[DL_TYPE] == 0x0800 and rb[PROTO] in (1, 6, 17)) else "exact-non-l4-outranked")
                     else:
                         why = self._classify(recs[best], h, False, ph)
                     return "lookup:frame %d returned entry %d (rank %d), entry %d (rank %d) matches why=%s" % (fi, got, ranks[got], best, ranks[best], why)
@@ -540,7 +547,7 @@ class C03(Check):
     # ---------------------------------------------------------------- matches at / near a frame
     def near_rec(self, rng, h, ph, flags, sc, dc, perturb=(), hi=0, canon=True):
         """transmitted match whose fields are the frame's (full ToS byte), except `perturb`ed ones;
-        canon: a wildcarded dl_type / nw_proto field is sent as zero (what the standard recommends; the other case is finding D32)"""
+        canon: a wildcarded dl_type / nw_proto field is sent as zero (what the standard recommends; the other case is finding D38)"""
         r = [mkwild(flags, sc, dc, hi)] + list(h)
         if ph["l3"] is not None and ph["l3"][0] == "ip": r[TOS] = ph["l3"][4]
         for f in perturb:
@@ -675,8 +682,8 @@ class C03(Check):
         return r
 
     def generate(self, rng, tier):
-        nfr = 260 if tier == "quick" else 4000
-        ntab = 220 if tier == "quick" else 2500
+        nfr = 260 if tier == "quick" else 8000
+        ntab = 220 if tier == "quick" else 5000
         fixed = self.fixed_frames()
         for i in range(nfr):
             kind = None
@@ -692,14 +699,14 @@ class C03(Check):
         pool = fixed + [self.frame(rng) for _ in range(30)]
         for i in range(ntab):
             yield self.table_case(rng, pool, n=rng.choice([0, 1, 2, 3, 8, 20, 40, rng.randint(1, 40)]), via_switch=(i % 4 == 0))
-        for c in self.local_and_subsume(rng, pool, 40 if tier == "quick" else 600): yield c
+        for c in self.local_and_subsume(rng, pool, 40 if tier == "quick" else 1200): yield c
 
     def search_cases(self, rng, tier):
         return self.generate(rng, "quick")
 
     def table_case(self, rng, pool, n, via_switch=False):
         """n flow entries aimed at 2-5 frames of the pool (so that several entries match the same frame), clustered priorities,
-        a mix of exact (wildcards = 0) and wildcarded entries; inputs of the open findings D26/D30/D32 are kept out (see table_witnesses)"""
+        a mix of exact (wildcards = 0) and wildcarded entries; inputs of the open findings D26/D36/D38 are kept out (see table_witnesses)"""
         frames = []
         for _ in range(rng.randint(2, 5)):
             for _try in range(20):
@@ -749,7 +756,8 @@ class C03(Check):
             # subsumption: a is b with more wildcards / shorter prefixes / a perturbed field
             prs, loc = [], []
             for _ in range(24):
-                b = self.rand_rec(rng, h, ph); b[W] &= 0x3fffff
+                b = self.rand_rec(rng, h, ph)
+                if rng.random() < 0.7: b[W] &= 0x3fffff        # otherwise keep bits 22..31 (the code compares them in the flag test)
                 a = list(b)
                 mode = rng.random()
                 if mode < 0.6:
@@ -761,7 +769,8 @@ class C03(Check):
                 elif mode < 0.8:
                     a = self.rand_rec(rng, h, ph); a[W] &= 0x3fffff
                 prs.append({"a": {"w": pack_rec(a).hex()}, "b": {"w": pack_rec(b).hex()}})
-                loc.append({"a": {"loc": a, "force_w": False}, "b": {"loc": b, "force_w": False}})
+                fw = rng.random() < 0.3                          # out-of-range counters stored as they are
+                loc.append({"a": {"loc": [a[W] & 0x3fffff] + a[1:], "force_w": fw}, "b": {"loc": [b[W] & 0x3fffff] + b[1:], "force_w": fw}})
             yield {"kind": "subsume", "pairs": prs}
             yield {"kind": "subsume", "pairs": loc}
 
